@@ -6,6 +6,10 @@ EXTENDS PoSA
 SetsA == << <<"a", "b", "c">>, <<"b", "c", "d">>, <<"d", "a">> >>
 \* B: window 2 (lists of 4 and 5), and a single-validator list
 SetsB == << <<"a", "b", "c", "d">>, <<"a", "b", "c", "d", "e">>, <<"e">> >>
+\* G: the genesis announcement SHRINKS the list (5 -> 2), a later announcement grows it again (2 -> 4): in the transition
+\* after a shrinking announcement the larger, older list is still in effect (window 2) while the newer one is smaller, so
+\* the recent-signer look-back has to cover the larger of the two lists; re-seals at every distance are edges of the graph
+SetsG == << <<"a", "b", "c", "d", "e">>, <<"a", "b">>, <<"a", "b", "c", "d">> >>
 \* F: fork-choice configuration, no announcements
 SetsF == << <<"a", "b", "c">>, <<"a", "b", "c">> >>
 \* C, D: clique (msc); Sets[1] is unused there, Sets[2] is the signer list of the checkpoint genesis (names are assigned
